@@ -137,3 +137,17 @@ def guarded_arms(ctx, rule, fn, m, inst):
             ctx.bad(rule, "%s:%s:guarded-arm" % (inst, _variants(a["pat"])[0][0]), "rank-arm-with-guard:" + short(pretty(a["guard"]), 60), ctx.crate.loc(fn, a["body"]),
                     "a `%s` arm guarded by `%s` handles part of the inputs of that rank differently from the general arm" % (_variants(a["pat"])[0][0], short(pretty(a["guard"]), 80)))
     return bad
+
+
+def full_env(crate, fn, base=None):
+    """E1 env of every immutable scalar `let` in fn (in source order), on top of `base` (e.g. loop variables)."""
+    env = dict(base or {})
+    for s in walk(fn["body"]):
+        if s.get("k") == "let" and s["pat"].get("k") == "bind" and s.get("init") is not None and "Mut" not in s["pat"].get("mode", ""):
+            ty = (crate.types[s["pat"]["t"]] or "").lstrip("&")
+            if ty in ("f32", "f64", "usize", "i32", "u64", "bool") and s["pat"]["hid"] not in env:
+                try:
+                    env[s["pat"]["hid"]] = e1.Norm(crate, env).norm(s["init"])
+                except ValueError:
+                    pass
+    return env
